@@ -94,7 +94,8 @@ func NewVerificationCache(verifier Verifier, ttl time.Duration, size int) *Verif
 }
 
 type cacheEntry struct {
-	vm         *VerifiedMacaroon
+	// private copy of the verified caveats; never handed out directly
+	caveats    *macaroon.CaveatSet
 	expiration time.Time
 }
 
@@ -109,21 +110,29 @@ func (vc *VerificationCache) Verify(ctx context.Context, dissByPerm map[Macaroon
 		hdr := String(append(diss, perm)...)
 
 		if v, ok := vc.cache.Get(hdr); ok && v.expiration.After(time.Now()) {
-			ret[perm] = v.vm
-			delete(dissByPerm, perm)
-		} else {
-			hdrByPerm[perm] = hdr
+			// every bundle gets its own result object around its own token and
+			// its own copy of the caveats, so that what one bundle does later
+			// (e.g. Attenuate) can't leak into the cache or other bundles
+			if cavs, err := v.caveats.Clone(); err == nil {
+				ret[perm] = &VerifiedMacaroon{perm.Unverified(), cavs}
+				delete(dissByPerm, perm)
+				continue
+			}
 		}
+
+		hdrByPerm[perm] = hdr
 	}
 
 	for perm, res := range vc.verifier.Verify(ctx, dissByPerm) {
 		ret[perm] = res
 
 		if vm, ok := res.(*VerifiedMacaroon); ok {
-			vc.cache.Add(hdrByPerm[perm], &cacheEntry{
-				vm,
-				time.Now().Add(vc.ttl),
-			})
+			if cavs, err := vm.Caveats.Clone(); err == nil {
+				vc.cache.Add(hdrByPerm[perm], &cacheEntry{
+					cavs,
+					time.Now().Add(vc.ttl),
+				})
+			}
 		}
 	}
 
